@@ -35,8 +35,9 @@ func init() {
 		Jobs: func(tier string) []Job {
 			jobs := []Job{{Pkg: "root", Func: "verifC01Vacuity", Vacuity: true}}
 			for _, n := range []int64{0, 1, 4, 5, 6} {
-				jobs = append(jobs, Job{Pkg: "filterutil", Func: "verifHashLemma", Args: []int64{n, 1, 1}})
+				jobs = append(jobs, Job{Pkg: "filterutil", Func: "verifHashLemma", Args: []int64{n, 1, 1}, Raw: true})
 			}
+			jobs = append(jobs, Job{Pkg: "filterutil", Func: "verifHashLemmaBytes", Raw: true})
 			// rule shapes: (shortcut length, number of $domain values)
 			shapes1 := [][2]int{{5, 0}, {6, 0}, {7, 0}, {3, 0}, {5, 1}, {0, 1}, {2, 1}, {0, 2}}
 			urlLens := []int64{4, 5, 6, 8}
@@ -45,7 +46,6 @@ func init() {
 				urlLens = []int64{0, 4, 5, 6, 7, 9, 11}
 				srcs = [][2]int64{{-1, 0}, {1, 1}, {2, 2}, {4, 0}, {5, 1}, {3, 2}}
 			}
-			domLen := int64(4)
 			urlLens2 := []int64{5, 6}
 			if tier == "thorough" {
 				urlLens2 = []int64{4, 5, 6, 7}
@@ -60,7 +60,13 @@ func init() {
 						if !needsSrc && s[0] != -1 {
 							continue
 						}
-						jobs = append(jobs, Job{Pkg: "root", Func: "verifC01", Args: []int64{n, shape, domLen, ul, s[0], s[1]}})
+						domLens := []int64{4}
+						if needsSrc {
+							domLens = []int64{2, 4}
+						}
+						for _, domLen := range domLens {
+							jobs = append(jobs, Job{Pkg: "root", Func: "verifC01", Args: []int64{n, shape, domLen, ul, s[0], s[1]}})
+						}
 					}
 				}
 			}
@@ -84,7 +90,7 @@ func init() {
 		AbstractHash: true,
 		MustReach: []string{"c01.match", "hash.lemma"},
 		Bounds: map[string]string{
-			"quick":    "1..2 rules with literal patterns: shortcut of 0,2,3,5,6,7 symbolic bytes over {a,b,:,/} (below, at and above the table's window length), 0..2 $domain values of 4 symbolic bytes over {z,q,.,*} (incl. wildcard TLD), distinct storage indexes; URL of 4,5,6,8 symbolic bytes (5,6 with two rules); source host absent or 1..4 symbolic bytes plus a PSL tail; the hash is an uninterpreted function of the window bytes (arbitrary collisions)",
+			"quick":    "1..2 rules with literal patterns: shortcut of 0,2,3,5,6,7 symbolic bytes over {a,b,:,/} (below, at and above the table's window length), 0..2 $domain values of 2 or 4 symbolic bytes over {z,q,.,*} (incl. wildcard TLD), distinct storage indexes; URL of 4,5,6,8 symbolic bytes (5,6 with two rules); source host absent or 1..4 symbolic bytes plus a PSL tail; the hash is an uninterpreted function of the window bytes (arbitrary collisions)",
 			"thorough": "up to 3 rules, URLs up to 11 bytes, more shape pairs and source hosts",
 		},
 		Outside:     []string{"rule storage and parser (perfect storage stub; C11, C13)", "the compiled pattern (literal patterns: accepts iff the lower-cased URL contains the literal; C03)", "real djb2 collisions as opposed to arbitrary ones: a counterexample that needs a collision cannot be replayed natively and is reported as a note", "more than 3 rules, longer URLs, other modifiers than $domain"},
